@@ -367,6 +367,11 @@ def make_bank(rng, quick):
                              sid=j + 1))
         if rng.random() < 0.3:
             gen.uproot(rng, bank[-1], 0.3)
+        # tags and labels are only counted by the analysis tasks: whatever
+        # they look like, they are reported as they are
+        gen.spice(rng, bank[-1], ['pos-decorated', 'pos-punct-char',
+                                  'pos-apostrophe', 'cat-keyword',
+                                  'cat-apostrophe', 'cat-punct-char'])
     return bank
 
 
